@@ -8,9 +8,13 @@ import operator
 
 from mc.explore import Stats, pmap, chunks, Product, seeded_rng, HarnessError
 from ref import refversion
+from mc import modstate
 
 NUMS = ['0', '1', '2', '3', '10']
 SUFFIXES = ['', 'a', 'b', '-rc1', ' ', 'a9', 'a10', 'a1x']
+# second pair space: few numbers, many suffixes (letter case, mixed case, non-ASCII letters with case, digits, blanks)
+NUMS2 = ['2', '3']
+SUFFIXES2 = ['', 'a', 'A', 'b', 'B', 'aB', 'Ab', '-rc1', '-RC1', 'a9', 'A9', u'\xe9', u'\xc9', u'\xdf', 'a b', 'a-1', '+', '~']
 
 
 def alphabet(nums=NUMS, suffixes=SUFFIXES, groups=(1, 2, 3)):
@@ -39,6 +43,7 @@ def check_pair(hs, a, b, st):
     Version = hs.Version
     c = refversion.cmp(a, b)
     va, vb = Version(a), Version(b)
+    before = (modstate._state(va), modstate._state(vb), str(va), str(vb))
     obs = []
     for name, op, want in OPS:
         for form, x, y in (('V,V', va, vb), ('V,str', va, b), ('str,V', a, vb)):
@@ -61,6 +66,12 @@ def check_pair(hs, a, b, st):
         if (vb in {va}) is not True or {va: 1}.get(vb) != 1:
             st.fail('equal-versions-not-interchangeable-as-keys', {'shape': shape(a, b)},
                     {'kind': 'pair', 'a': a, 'b': b}, {'expr': 'Version(%r) in {Version(%r)}' % (b, a)})
+    after = (modstate._state(va), modstate._state(vb), str(va), str(vb))
+    if after != before:
+        # comparing, hashing or looking up a version is an observation: it must leave both operands as they were
+        st.fail('comparison-changed-an-operand', {'shape': shape(a, b)}, {'kind': 'pair', 'a': a, 'b': b},
+                {'before': list(before), 'after': list(after)})
+    modstate.report_constants(st, {'kind': 'pair', 'a': a, 'b': b}, 'comparison of %r with %r' % (a, b))
     st.count('executions')
     st.case((a, b), nontrivial=(a != b), outcome=(c, tuple(obs[:6])))
     return c
@@ -190,6 +201,9 @@ def run(ctx):
     st = Stats()
     for part in pmap(pairs_task, [(c, S) for c in chunks(rows, ctx.jobs * 4)], ctx.jobs):
         st.merge(part)
+    S2 = alphabet(nums=NUMS2, suffixes=SUFFIXES2)
+    for part in pmap(pairs_task, [(c, S2) for c in chunks(list(S2), ctx.jobs * 2)], ctx.jobs):
+        st.merge(part)
     trows = list(T)
     rng.shuffle(trows)
     for part in pmap(triples_task, [(c, T) for c in chunks(trows, ctx.jobs * 4)], ctx.jobs):
@@ -204,19 +218,20 @@ def run(ctx):
             st.fail('nearest-depends-on-call-history', {}, {'kind': 'nearest-order', 'v': v}, {o: r[v] for o, r in results.items()})
     nearest_checks(S, st)
     cache_checks(st)
-    pairs, triples = Product(S, S), Product(T, T, T)
+    pairs, triples, pairs2 = Product(S, S), Product(T, T, T), Product(S2, S2)
     ps, pt = pairs.tree_size()
     ts, tt = triples.tree_size()
-    if st.c.get('executions', 0) < pairs.leaves() + triples.leaves():  # noqa
+    p2s, p2t = pairs2.tree_size()
+    if st.c.get('executions', 0) < pairs.leaves() + triples.leaves() + pairs2.leaves():  # noqa
         raise HarnessError('enumeration incomplete')
-    st.c['states'] = ps + ts + len(S)
-    st.c['transitions'] = pt + tt + len(S)
+    st.c['states'] = ps + ts + p2s + len(S)
+    st.c['transitions'] = pt + tt + p2t + len(S)
     return {
         'stats': st, 'exhaustive': True,
         'rule': 'complete enumeration: all ordered pairs over S (1-3 numeric groups over %s x suffix %r), all triples over '
                 'sub-alphabet T, nearest() on all of S in reference order, grammar-cache lookups; a case is non-trivial when '
                 'the two strings differ; distinct = distinct (a,b)' % (NUMS, SUFFIXES),
-        'coverage': {'bounds': {'|S|': len(S), 'pairs': pairs.leaves(), '|T|': len(T), 'triples': triples.leaves(),
+        'coverage': {'bounds': {'|S|': len(S), 'pairs': pairs.leaves(), '|S2|': len(S2), 'pairs_S2': pairs2.leaves(), 'S2': [NUMS2, SUFFIXES2], '|T|': len(T), 'triples': triples.leaves(),
                                 'operators': 6, 'operand_forms': 3}},
         'assumptions': ['order oracle = tuple order on (numeric groups without trailing zeros, suffix present, suffix)'],
     }
